@@ -552,3 +552,8 @@ package common
 //@   requires built: d != nil && d.stream != nil && d.offsets != nil && d.stream.consumed >= 0 && d.stream.consumed <= len(d.stream.data) && gf(d.stream.dec, limit) <= len(d.stream.data)
 //@   loop 0 invariant rangeindex == -1 ==> bodyPos == txBodiesOffset + stepOver(blockArray[1], len(txBodiesRaw))
 //@   loop 1 invariant rangeindex == -1 ==> witnessPos == witnessesOffset + stepOver(blockArray[2], len(witnessesRaw))
+//@ func (d *StreamingBlockDecoder) extractOutputOffsets(txIndex, bodyData, bodyOffset) ()
+//@   props C07
+//@   attr safe off
+//@   loop 1 invariant rangeindex == -1 ==> outputPos == outputsArrayOffset + stepOver(subslice(bodyData,
+//@       ite(int(headerSize)+valueStart < 0, 0, ite(int(headerSize)+valueStart < len(bodyData), int(headerSize)+valueStart, len(bodyData))), len(bodyData)), len(outputsRaw))
